@@ -454,13 +454,21 @@ func retryDecision(c *Ctx, aspects map[string]bool) {
 					}
 				}
 			} else {
-				// abortable: statement only requires that the policy stops (Done)
+				// abortable: the policy stops (Done). Giving up takes precedence when both coincide: an outcome that also
+				// exhausts the budget is reported as ExceededError (unless ReturnLastFailure), like any other exhausting
+				// outcome — an outer policy handling ExceededError must see it
 				switch {
-				case fr != nil:
-					// FailureResult is Done by construction (internal.FailureResult sets Done: true; checked in C04/C06 rules)
+				case X == triT && L == triU:
+					bad("the outcome for exceeded retries does not depend on ReturnLastFailure")
+					continue
+				case X == triT && L == triF:
+					if fr == nil || !isExceededErr(fr) {
+						bad("retries exceeded without ReturnLastFailure must return FailureResult(ExceededError{LastResult: result.Result, LastError: result.Error}), also when the exhausting outcome matches an abort condition")
+						continue
+					}
 				case wd != nil && wd.Recv == result && truth(wd.Args[0]) == triT && truth(wd.Args[1]) == triF:
 				default:
-					bad("an abort-matching outcome must stop the policy: result.WithDone(true, false) or an exceeded error")
+					bad("an abort-matching outcome must stop the policy and be returned unchanged: result.WithDone(true, false)")
 					continue
 				}
 			}
